@@ -446,7 +446,8 @@ def _name_accessor(n, m):
     if is_odd(m) and n >= 3:
         return abs(int((n - 3) / 2 + 1))
     else:
-        return int(n / abs(m))
+        # position of n in the column |m| (n = |m|, |m|+2, ...): (4,4) primary, (6,4) secondary, ...
+        return int((n - abs(m)) / 2 + 1)
 
 
 def _name_helper(n, m):
